@@ -170,7 +170,7 @@ def main():
             bounds_completed=[s.job['label'] for s in complete],
             bounds_not_completed=[s.job['label'] for s in states if s not in complete],
             functions_encoded=sorted(funcs_hit), std_models_used=sorted(models_hit), mir_dump_sha256=hashlib.sha256(open(paths['mir'], 'rb').read()).hexdigest(),
-            tree_hash=paths['hash'], unencoded_paths=unenc, panicking_paths=sum(s.by_status.get('panic', 0) for s in states),
+            tree_hash=paths['hash'], unencoded_paths=unenc, unencoded_paths_sampled_natively=sum(getattr(s, 'unencoded_sampled', 0) for s in states), panicking_paths=sum(s.by_status.get('panic', 0) for s in states),
             panic_examples=[dict(msg=p['msg'], input=describe_values(p['values'] or {})) for p in panics[:3]],
             cover_points=dict(declared=sorted(declared), reached=sorted(reached & declared), missing=missing),
             solver='z3 ' + __import__('z3').get_version_string(), solver_calls=sum(s.solver_calls for s in states),
@@ -191,6 +191,9 @@ def main():
     if unenc:
         for k, v in list(unenc.items())[:5]:
             log(f'  unencoded x{v}: {k}')
+        ns = sum(getattr(s, 'unencoded_sampled', 0) for s in states)
+        log(f'UNENCODED: {sum(unenc.values())} paths reached code the encoder has no model for; {ns} of them were sampled natively (one '
+            f'representative each, passed). The solver verdict covers the encoded paths only: inconclusive, exit 2')
     rc = 0
     if violations:
         for v in violations:
@@ -209,6 +212,8 @@ def main():
         rc = rc or 2
     if not complete:
         log('NO JOB COMPLETED (no verdict)')
+        rc = rc or 2
+    if unenc:
         rc = rc or 2
     nerr = sum(s.by_status.get('error', 0) for s in states)
     if nerr:
